@@ -99,8 +99,8 @@ PROPS = {
     "C04": dict(
         level="proof",
         model_timeout=3600,
-        extra_lean_targets=["LdpcV.Props.C04Real"],
-        extra_prop_files=["LdpcV/Props/C04Real.lean"],
+        extra_lean_targets=["LdpcV.Props.C04Real", "LdpcV.Props.C04Table"],
+        extra_prop_files=["LdpcV/Props/C04Real.lean", "LdpcV/Props/C04Table.lean"],
         trusted_base=[KERNEL, CORR,
                       "8-bit rules: exact integer model lean/LdpcV/Model/ArithI8.lean (i8/i16 as Int with explicit overflow checks); the correction table is a "
                       "literal in the model and is compared entry by entry with the table read from the Debug text of every Rust arithmetic object",
@@ -115,8 +115,8 @@ PROPS = {
               "non-trivial = degree >= 2; distinct = distinct canonical input"),
         assumptions=COMMON_ASSUME,
         partial=["IEEE rounding of the float rules is not bounded by any theorem (real-semantics theorems + tanh-domain comparison only)",
-                 "table-vs-real clause (|table[t] - 8 ln(1+e^(-t/8))| <= 1/2, and the accumulated tracking bound of the 8-bit rules) is not proved; the table is "
-                 "compared entry by entry with the Rust table, whose entries Rust computes from that very formula"],
+                 "the table-vs-real clause is proved per entry (C04Table.table_tracks_real: |table[t] - 8 ln(1+e^(-t/8))| <= 1/2 for all t <= 127); the ACCUMULATED "
+                 "tracking bound of a whole 8-bit fold against the real-valued rule is not proved"],
     ),
     "C05": dict(
         level="proof",
@@ -221,6 +221,8 @@ PROPS = {
         tables="ccsds",
         native_decide_theorems=["ar4ja_profile_native", "ar4ja_tail_rank_native", "c2_facts_native", "ar4ja_r12_k1024_no_four_cycles_native",
                                 "ar4ja_profile_big_native", "ar4ja_tail_rank_big_native"],
+        extra_lean_targets=["LdpcV.Props.C07Rank"],
+        extra_prop_files=["LdpcV/Props/C07Rank.lean"],
         extra_lean_targets_thorough=["LdpcV.Props.C07Big"],
         extra_prop_files_thorough=["LdpcV/Props/C07Big.lean"],
         harness_timeout=7200, model_timeout=7200,
@@ -231,8 +233,8 @@ PROPS = {
                       "circulants; generated by checklib/gen_tables.py from the source and committed) plus the M values of Table 7-2 and the AR4JA protograph degrees "
                       "(extra blocks 4; base blocks 2,3,1,3 and the punctured block 6) written into the spec from memory; cross-checked by structure "
                       "(permutation property of every pi_k, degree profile, invertible tail, C2 weights / rank 1020 / 4-cycle freedom)",
-                      "C2 'rank exactly 1020' is `rankBits = 1020` (size of an echelon basis spanning the row space); independence of a full-size basis is proved "
-                      "(rankBits_full_indep), the uniqueness of the basis size is not"],
+                      "C2 'rank exactly 1020' is `rankBits = 1020`; that rankBits IS the GF(2) rank (an independent spanning family of that size exists and no independent "
+                      "sub-family of the rows is larger) is proved in C07Rank"],
         rule=("EXHAUSTIVE over the codes: the six AR4JA codes with k <= 4096 and C2 in the quick tier, all nine AR4JA codes in the thorough tier: AR4JACode::new(rate,k).h() "
               "and C2Code::new().h() are dumped (every row list in insertion order, every column as a sorted set) and compared entry by entry with the model built "
               "from the pinned tables (toggle cancellation modelled); structural predicates re-evaluated on the dumped matrix (3M x (k+3M) with the Blue Book M, "
@@ -240,7 +242,7 @@ PROPS = {
               "text is regenerated from the current source and diffed against the pinned file; Encoder::from_h on the k = 1024 (thorough: 4096) matrices must succeed "
               "and encode to codewords, girth_with_max(6) of rate 1/2 k=1024 and of C2 is reported (harness_extra); non-trivial = every code; distinct = 7 (10)"),
         assumptions=COMMON_ASSUME,
-        partial=["uniqueness of the GF(2) rank (basis size) is not proved; the k = 16384 codes are only in the thorough tier (9 min native evaluation)"],
+        partial=["the k = 16384 codes are only in the thorough tier (9 min native evaluation)"],
     ),
     "C14": dict(
         level="proof",
